@@ -345,8 +345,6 @@ public:
         if (config_.spread_schedule()[step]) {
             auto dispersal_kernel =
                 kernel_factory_(config_, pest_pool.dispersers(), network);
-            auto overpopulation_kernel =
-                create_overpopulation_movement_kernel(pest_pool.dispersers(), network);
             SpreadAction<
                 StandardMultiHostPool,
                 StandardPestPool,
@@ -373,6 +371,10 @@ public:
             POPS_VERIF_ACTION(step, "step_forward");
 #endif
             if (config_.use_overpopulation_movements) {
+                // Created only when used: its parameters (leaving scale coefficient)
+                // are inputs of a feature which may be disabled.
+                auto overpopulation_kernel = create_overpopulation_movement_kernel(
+                    pest_pool.dispersers(), network);
                 MoveOverpopulatedPests<
                     StandardMultiHostPool,
                     StandardPestPool,
